@@ -579,6 +579,9 @@ def build_pipeline_inspection(
     deleted_keys: set[str] = set()  # Tracks keys that have been deleted from context
     all_required_params: set[str] = set()  # All parameters required from context
     all_created_keys: set[str] = set()  # All keys created by any node
+    # Keys that must be present in the initial payload context: a key counts when a
+    # node needs it at a point where no earlier node has created (or deleted) it.
+    external_required: set[str] = set()
     errors: List[str] = []
 
     # Process each node configuration
@@ -721,6 +724,8 @@ def build_pipeline_inspection(
             elif origin == "required":
                 context_params[name] = origin_idx
                 required_params.add(name)
+                if name not in deleted_keys:
+                    external_required.add(name)
 
         # Merge explicit context requirements exposed by processor
         hook = getattr(processor.__class__, "get_context_requirements", None)
@@ -729,8 +734,19 @@ def build_pipeline_inspection(
                 if key not in context_params:
                     context_params[key] = key_origin.get(key)
                 required_params.add(key)
+                if key not in key_origin and key not in deleted_keys:
+                    external_required.add(key)
 
         all_required_params.update(required_params)
+
+        # Validate parameter availability against keys deleted by earlier nodes.
+        # Parameters are read before this node writes or deletes anything, so the
+        # check must not be masked by the node's own created/suppressed keys.
+        missing_deleted = required_params & deleted_keys
+        if missing_deleted - set(config_params.keys()):
+            node_errors.append(
+                f"Node {index} requires context keys previously deleted: {sorted(missing_deleted)}"
+            )
 
         required_external_parameters: List[str] = []
         required_hook = getattr(
@@ -783,13 +799,6 @@ def build_pipeline_inspection(
             suppressed_keys = set(node.get_suppressed_keys())
             deleted_keys.update(suppressed_keys)
 
-        # Validate parameter availability against deleted keys
-        missing_deleted = (required_params & deleted_keys) - suppressed_keys
-        if missing_deleted - set(config_params.keys()):
-            node_errors.append(
-                f"Node {index} requires context keys previously deleted: {sorted(missing_deleted)}"
-            )
-
         # Create inspection data for this node
         node_inspection = NodeInspection(
             index=index,
@@ -829,8 +838,8 @@ def build_pipeline_inspection(
         inspection_nodes.append(node_inspection)
 
     # Calculate pipeline-level required context keys
-    # These are parameters required by nodes but not created by any node
-    required_context_keys = all_required_params - all_created_keys
+    # These are parameters a node needs before any node has created them
+    required_context_keys = set(external_required)
 
     return PipelineInspection(
         nodes=inspection_nodes,
